@@ -363,6 +363,10 @@ def run(chk):
                 "distinct operation lines.") % (30 if quick else 200)
     ol.obligations_with_gen(chk, MODS, tr.generate, tr.OUT)
     T = Table()
+    try:
+        tr.selftest()
+    except Exception as e:
+        chk.report("translator-selftest", "translate/optimizers.py self-test fails: %r" % (e,), {"error": repr(e)}, found_input=False)
     if tr.differs_from_golden():
         chk.notes.append("Gen/Optimizers.lean differs from translate/golden/Optimizers.lean (the optimizer sources changed since the golden copy was taken)")
     n_hist = 200 if quick else 5000
